@@ -67,6 +67,18 @@ func keyEmuScenarios(big, withMapping bool) []*Desc {
 	return out
 }
 
+// keyEmuSubScenario: two sub-handlers of one device deliver the same axis code, both emulate keys with it
+func keyEmuSubScenario() *Desc {
+	d := base("keyemu-subhandlers", "interrupt")
+	d.Mappings = []MapDesc{{Name: "M0", Keys: km{K1: {60, 0}},
+		Axes:    []AxisDesc{{Name: "ABS_HAT0X", Type: "key", Note: 60, NoteNeg: 62, Min: -1, Max: 1, Deadzone: 0, Pos: []int32{-1, 0, 1}}},
+		SubAxes: map[string][]AxisDesc{"Touchpad": {{Name: "ABS_HAT0X", Type: "key", Note: 70, NoteNeg: 72, Min: -1, Max: 1, Deadzone: 0, Pos: []int32{-1, 0, 1}}}},
+	}}
+	acts(d, OU, "octave_up")
+	d.OctLo, d.OctHi = 0, 1
+	return d
+}
+
 func ccScenarios(big bool) []*Desc {
 	d := base("bidir-cc", "interrupt")
 	ax := []AxisDesc{
@@ -124,7 +136,7 @@ func (k *keyEmu) Step(c *StepCtx) {
 	negOn := v.Cmp(new(bigRat).Neg(half)) <= 0
 	rest := new(bigRat).Abs(v).Cmp(lim) < 0
 	band := !posOn && !negOn && !rest
-	pk, nk := a.Name+"+", a.Name+"-"
+	pk, nk := c.Sym.Name+"+", c.Sym.Name+"-"
 	var mustOn, mayOff, mustOff []string // as semantic strings
 	onStr := func(q [2]int) string { return fmt.Sprintf("On ch%d/%d", q[0]+1, q[1]) }
 	offStr := func(q [2]int) string { return fmt.Sprintf("Off ch%d/%d", q[0]+1, q[1]) }
